@@ -106,14 +106,13 @@ PROPS = {
     "C04": {
         "module": "GtfsVerif.Props.C04",
         "trusted_base": RT_TB,
-        "partial": ["pointer identity (t.Vehicle.Trip.Vehicle == t.Vehicle) is a runtime fact checked by the oracle's pointer walk; the theorems are about the association tables and the data each reference reaches",
-                    "invariance under entity order is inherited from C07 (partial there)"],
+        "partial": ["pointer identity (t.Vehicle.Trip.Vehicle == t.Vehicle) is a runtime fact checked by the oracle's pointer walk; the theorems are about the data each reference reaches, over the whole message (C04_identified_link, C04_idless_trip_side, C04_idless_vehicle_side, C04_unassociated_trip, C04_unassociated_vehicle) and under any entity order (C07_parse_perm_invariant)"],
         "assumptions": [],
     },
     "C07": {
         "module": "GtfsVerif.Props.C07",
         "trusted_base": RT_TB,
-        "partial": ["permutation invariance is proved for Trips (identifiers, order and data: C07_parse_trips_perm_invariant) and for Vehicles (identified vehicles: same identifiers, order and data; id-less vehicles: the same multiset, C07_parse_vehicles_perm_invariant), for no extension and the NYCT trips extension, whose pre-pass treats each entity on its own, via the closed form of merging one trip's / vehicle's mentions; invariance of the links (Trip.Vehicle, Vehicle.Trip) under permutation is not yet a theorem and is carried by the correspondence (6 entity orders per case on model and implementation) and the C04/C07 oracles"],
+        "partial": ["permutation invariance is one theorem for no extension and the NYCT trips extension (C07_parse_perm_invariant: Trips identical including each trip's vehicle reference, identified Vehicles identical including each vehicle's trip reference, id-less Vehicles the same multiset each with its own entity's trip); for the NYCT alerts extension, whose pre-pass groups elevator alerts by first occurrence, the statement is carried by the correspondence (6 entity orders per case on model and implementation); alerts keep feed order (C02_alerts_exact)"],
         "assumptions": [],
     },
     "C12": {
@@ -223,12 +222,12 @@ MANIFEST_TEXT = {
         "technique": "Lean 4 proof over a model of ParseRealtime + differential correspondence and wire-truth oracle",
     },
     "C04": {
-        "text": "Theorems: an entity associating a trip with a vehicle records the association both ways (trip update with vehicle descriptor; vehicle position with trip descriptor; id-less vehicle as a positional link), and link resolution makes the two result entries reach each other's data (with id and id-less), nil when no association. The oracle walks the real pointers (mutual, content equal to the list entries, nil exactly when unassociated) on conflict-free messages in several entity orders.",
+        "text": "Theorems: an entity associating a trip with a vehicle records the association both ways (trip update with vehicle descriptor; vehicle position with trip descriptor; id-less vehicle as a positional link), and link resolution makes the two result entries reach each other's data (with id and id-less), nil when no association; over the whole message (closed form of the link tables as a fold over the message's vehicle items): every association an entity makes is reflected by mutual references whatever else the message contains, provided associations do not contradict each other. The oracle walks the real pointers (mutual, content equal to the list entries, nil exactly when unassociated) on conflict-free messages in several entity orders.",
         "note": "Pointer identity is a runtime fact: observed by the oracle, not proved. Trusted: Lean kernel, harness.",
         "technique": "Lean 4 proof over the association tables / link resolution of the model + pointer-walk oracle",
     },
     "C07": {
-        "text": "Theorems for every message and extension: TripID.Less is a strict total order on parser-produced identifiers (lexicographic key), Trips is strictly increasing in it (state invariant of the merge loop by induction over entities: keys distinct, well-formed, entry id = key; mergeSort sortedness), Vehicles has no duplicate identifier; own-entity-wins for any position of the own entity among references; mentions of different trips commute. Permutation invariance of Trips and of Vehicles for conflict-free messages is proved via the closed form of merging one key's mentions and the uniqueness of a sorted permutation; the links under permutation are checked on 6 entity orders per case on model and implementation (partial).",
+        "text": "Theorems for every message and extension: TripID.Less is a strict total order on parser-produced identifiers (lexicographic key), Trips is strictly increasing in it (state invariant of the merge loop by induction over entities: keys distinct, well-formed, entry id = key; mergeSort sortedness), Vehicles has no duplicate identifier; own-entity-wins for any position of the own entity among references; mentions of different trips commute. Permutation invariance of Trips, Vehicles and the links between them for conflict-free messages is one theorem (closed form of merging one key's mentions, closed form of link resolution over the vehicle items of the message, uniqueness of a sorted permutation); every case is also parsed in 6 entity orders on model and implementation.",
         "note": "Trusted: Lean kernel, harness. sort.Slice is modelled as a sort; output claimed only where keys are distinct (proved).",
         "technique": "Lean 4 proof (strict total order via lexicographic keys, loop invariant by induction) + permutation correspondence",
     },
